@@ -213,3 +213,31 @@ Proof.
   destruct (proj2 (FromDictProofs.from_dict_accepts_iff ds)) as [r Hr]; [tauto|].
   exists r. split; [exact Hr | now apply graph_from_definitions_WF].
 Qed.
+
+(** * Everything at once, from the single fact that [from_dict] accepted the definitions *)
+Theorem from_dict_state_sound ds r : FromDict.from_dict ds = FromDict.FOk r -> state_sound_from_definitions ds r.
+Proof.
+  intros H V M IX hv ax fs v0 sm g. subst g.
+  split; [now apply graph_from_definitions_WF|].
+  split; [now apply gn_from_definitions|].
+  split; [intros k p; now apply parents_are_named_parameters|].
+  split.
+  - now apply never_stale_full_reverts_from_definitions.
+  - now apply never_stale_from_definitions.
+Qed.
+
+Theorem accepted_b_state_sound ds : accepted_b ds = true ->
+  exists r, FromDict.from_dict ds = FromDict.FOk r /\ state_sound_from_definitions ds r.
+Proof.
+  unfold accepted_b. destruct (FromDict.from_dict ds) as [r|e] eqn:E; [|discriminate].
+  intros _. exists r. split; [reflexivity | now apply from_dict_state_sound].
+Qed.
+
+(** for a list of labelled definition lists (the shape of the regenerated [GenC15Defs.shipped_defs]) *)
+Theorem accepted_all_state_sound {L : Type} (l : list (L * list FromDict.vdef)) :
+  forallb (fun p => accepted_b (snd p)) l = true ->
+  forall lbl ds, In (lbl, ds) l ->
+    exists r, FromDict.from_dict ds = FromDict.FOk r /\ state_sound_from_definitions ds r.
+Proof.
+  intros H lbl ds Hin. rewrite forallb_forall in H. apply accepted_b_state_sound. exact (H _ Hin).
+Qed.
